@@ -192,3 +192,42 @@ Lemma ex_controlled_hyp :
   /\ nodupZ [0; 1] = true /\ overlapZ (gtargets ex_rx) [0; 1] = false
   /\ from_dict ex_rows ex_bases (raw ex_required ex_rx) = OK ex_rx /\ raw_rt_ok (OK ex_rx) ex_rx.
 Proof. repeat split; try (vm_compute; reflexivity); discriminate. Qed.
+
+(* ---------------------------------------------------------------- text layer *)
+From QV Require Import C13.TextModel C13.TextProofs.
+Definition ex_reserved : list string := ["OPENQASM"; "include"; "qreg"; "creg"; "measure"; "gate"; "if"; "reset"; "barrier"].
+
+Lemma ex_text_hyps :
+  forallb (fun k => mem_str k ex_reserved) grammar_keywords = true
+  /\ name_ok ex_reserved "q" = true
+  /\ (forall r l, In r ex_rows -> rlabel r = Some l -> name_ok ex_reserved l = true).
+Proof.
+  split; [reflexivity|]. split; [reflexivity|].
+  intros r l Hin Hl. repeat (destruct Hin as [<-|Hin]; [try discriminate Hl; injection Hl as <-; reflexivity|]). destruct Hin.
+Qed.
+
+Lemma ex_text_exportable : text_exportable ex_reserved ex_c.
+Proof.
+  constructor.
+  - vm_compute. discriminate.
+  - vm_compute. repeat constructor; try discriminate.
+  - vm_compute. repeat constructor; try discriminate.
+Qed.
+
+Lemma ex_print_ok : exists toks, print_qasm ex_rows ex_c = OK toks.
+Proof. exists (unwrap [] (print_qasm ex_rows ex_c)). vm_compute. reflexivity. Qed.
+
+(* register names that are lower case (all the writer checks) but no identifiers / reserved words:
+   the text is produced and the parser rejects it *)
+Definition ex_badname_circuit (name : string) : res circuit :=
+  g1 <- construct ex_bases ex_M [VA (AInt 2); VA (AInt 0)] [("register_name", VA (AStr name))];
+  build ex_rotation 3 false [g1].
+
+Lemma ex_badname_rejected : forall name, In name ["1a"; "a b"; "measure"; "a-b"; "if"] ->
+  exists c toks, ex_badname_circuit name = OK c /\ print_qasm ex_rows c = OK toks
+                 /\ parse_qasm ex_reserved toks = Err EValueError.
+Proof.
+  intros name Hin.
+  exists (wc (ex_badname_circuit name)), (unwrap [] (print_qasm ex_rows (wc (ex_badname_circuit name)))).
+  repeat (destruct Hin as [<-|Hin]; [wit|]). destruct Hin.
+Qed.
